@@ -244,7 +244,20 @@ impl Model {
         let extra = if self.stale_credit { self.unflushed } else { 0 };
         self.set.iter().all(|s| self.has_space(s, n + extra) && !(self.oneshot && s.once_sent))
     }
+    /// a value that was handed to a receive future which was then dropped and that nobody received since
+    pub fn orphaned(&self) -> Option<Id> {
+        // only rendezvous channels hand a value to a specific waiting receive; in buffered
+        // channels the model's "handed to the future" states are hypotheses, not facts
+        if !self.rendezvous() {
+            return None;
+        }
+        self.undone.iter().copied().find(|v| !self.received.contains(v))
+    }
     pub fn recv_nonblocking(&self, _h: usize) -> bool {
+        if self.orphaned().is_some() {
+            // known weak spot (rendezvous): the value may be gone; never risk blocking on it
+            return false;
+        }
         let no_tx = !self.any_tx();
         self.set.iter().all(|s| !s.q.is_empty() || (no_tx && !self.pending_send(s)))
     }
@@ -704,7 +717,9 @@ impl Model {
                 } else {
                     let d = self.describe();
                     self.kill_fut(i);
-                    if !any_rx || self.tx[h] == HSt::Closed {
+                    if self.tx[h] == HSt::Closed {
+                        Err(mm("C04", "closed_handle_accepts", format!("{} on a handle that was itself closed reported sent={}; {}", opname, sent, d)))
+                    } else if !any_rx {
                         Err(mm("C04", "send_after_receivers_gone", format!("{} reported sent={} although the channel is closed for it; {}", opname, sent, d)))
                     } else {
                         Err(mm("C03", "over_capacity", format!("{} reported sent={} which does not fit any possible state; {}", opname, sent, d)))
@@ -869,6 +884,15 @@ impl Model {
         let ok = self.refine(|_m, s| if s.q.len() == len { vec![s.clone()] } else { vec![] });
         if ok {
             Ok(())
+        } else if self.set.iter().all(|s| s.q.len() < len) && self.set.iter().any(|s| s.futs.iter().any(|f| matches!(f, FutSt::Send { h, .. } | FutSt::SendBatch { h, .. } if self.tx[*h] == HSt::Closed))) {
+            let batch = self.set.iter().any(|s| s.futs.iter().any(|f| matches!(f, FutSt::SendBatch { h, .. } if self.tx[*h] == HSt::Closed)));
+            let mut m = mm("C04", "closed_handle_accepts", format!("{}.len() = {}: a send future created on a sender handle that was itself closed has put values into the channel; {}", who, len, self.describe()));
+            m.op = Some(if batch { "async.send_batch_future" } else { "async.send_future" });
+            Err(m)
+        } else if len > 0 && self.saw_disc.iter().zip(self.rx.iter()).any(|(d, h)| *d && *h == HSt::Open) && self.set.iter().all(|s| s.q.len() < len) {
+            let mut m = mm("C04", "disconnected_before_drain", format!("a live receiver has observed Disconnected, yet {}.len() = {}: a value that was sent successfully is still buffered (only a pending receive future of another receiver could still take it); {}", who, len, self.describe()));
+            m.op = Some("async.recv_future");
+            Err(m)
         } else {
             Err(mm("C03", "len_mismatch", format!("{}.len() = {} but {}", who, len, self.describe())))
         }
